@@ -8,4 +8,6 @@ CHECKS = {
             "deadline_s": {"quick": 300, "thorough": 3000}},
     "C20": {"pkg": "c20", "deps": [], "level": "model_checking",
             "deadline_s": {"quick": 300, "thorough": 3000}},
+    "C15": {"pkg": "c15", "deps": [], "level": "model_checking",
+            "deadline_s": {"quick": 300, "thorough": 3000}},
 }
